@@ -28,6 +28,7 @@ def is_aig(spelling):
 def invoke(case, c, operands):
     """Run the real generator described by `case` on circuit c.  Returns
     (out_pairs [(level,label)], in_pairs [(weight,label)], flags)."""
+    gencommon.elsewhere_first(case, _invoke)
     guard = gencommon.OperandLists(operands, alias=case.get("alias", False))
     try:
         return _invoke(case, c, guard.lists)
